@@ -308,7 +308,7 @@ class IgnoreMask:
                 (
                     ignore
                     for ignore in ignore_mask
-                    if not ignore.rules or (v.rule_code() in ignore.rules)
+                    if ignore.rules is None or (v.rule_code() in ignore.rules)
                 ),
                 key=lambda ignore: ignore.line_no,
             )
